@@ -32,10 +32,14 @@ Init == /\ tid \in 1..N /\ l = 1
 OrdOf(m, id) == LET i == FirstIdx(ords, LAMBDA o : o.m = m /\ o.id = id) IN ords[i]
 KnownOrd(m, id) == FirstIdx(ords, LAMBDA o : o.m = m /\ o.id = id) # 0
 
-FillTruth(fills) ==
-  [k \in 1..Len(fills) |->
-     LET f == fills[k] IN
-     [ref |-> <<"e", f[8], f[7], f[1], f[2], f[4], f[3]>>, f |-> <<f[7], f[5], f[6], f[1], f[2], f[3], f[4]>>, grp |-> 0]]
+\* the record of a fill carries the market clock of the round (e.t) and the owners of the two orders as accepted;
+\* the reference key (how a delivery is recognised) is taken from the log object itself
+FillTruth(e) ==
+  [k \in 1..Len(e.fills) |->
+     LET f == e.fills[k]
+         ba == IF KnownOrd(e.m, f[1]) THEN OrdOf(e.m, f[1]).a ELSE f[5]
+         sa == IF KnownOrd(e.m, f[2]) THEN OrdOf(e.m, f[2]).a ELSE f[6] IN
+     [ref |-> <<"e", f[8], f[7], f[1], f[2], f[4], f[3]>>, f |-> <<e.t, ba, sa, f[1], f[2], f[3], f[4]>>, grp |-> 0]]
 ExpTruth(e) ==
   [k \in 1..Len(e.exp) |->
      LET id == e.exp[k][1] IN
@@ -69,8 +73,9 @@ AllDelivered(vv, what) == [vv EXCEPT !.C10 = F(@, nd # Len(truth), "C10:late-or-
 Step ==
   /\ l <= Len(Ev) /\ l' = l + 1 /\ tid' = tid
   /\ LET e == Ev[l]
-         \* a step record written through the direct path must be delivered at once
-         v0 == [v EXCEPT !.C10 = F(@, sync # "" /\ e.k # sync, "C10:step-record-not-synchronous")] IN
+         \* a step record must be delivered before anything else happens (deliveries of older records and the
+         \* flush itself may come in between: the logger path used is not part of the property)
+         v0 == [v EXCEPT !.C10 = F(@, sync # "" /\ e.k \notin {sync, "lp", "flush"}, "C10:step-record-not-synchronous")] IN
      CASE e.k = "acc" ->
             /\ truth' = Append(truth, [ref |-> <<"o", e.m, e.id>>, f |-> <<e.t, e.a, e.buy, e.mo, e.px, e.vol, e.ttl>>, grp |-> 0])
             /\ ords' = Append(ords, [m |-> e.m, id |-> e.id, a |-> e.a, buy |-> e.buy, mo |-> e.mo, px |-> e.px, ttl |-> e.ttl, t |-> e.t])
@@ -82,18 +87,20 @@ Step ==
                                              ELSE <<>>, grp |-> 0])
             /\ v' = v0 /\ sync' = "" /\ UNCHANGED <<nd, ords, cnt>>
        [] e.k = "round" ->
-            /\ truth' = truth \o FillTruth(e.fills)
+            /\ truth' = truth \o FillTruth(e)
             /\ v' = v0 /\ sync' = "" /\ UNCHANGED <<nd, ords, cnt>>
        [] e.k = "tick" ->
             /\ truth' = truth \o ExpTruth(e)
             /\ v' = v0 /\ sync' = "" /\ UNCHANGED <<nd, ords, cnt>>
        [] e.k = "lp" ->
             LET r == Deliver(e, v0) IN
-            /\ truth' = r[1] /\ nd' = r[2] /\ v' = r[3] /\ sync' = "" /\ UNCHANGED <<ords, cnt>>
+            /\ truth' = r[1] /\ nd' = r[2] /\ v' = r[3] /\ sync' = sync /\ UNCHANGED <<ords, cnt>>
        [] e.k = "lw" ->
-            /\ sync' = IF e.kind \in {"stepB", "stepE"} /\ e.via = "direct" THEN e.kind ELSE ""
-            /\ v' = [v0 EXCEPT !.C10 = F(@, e.kind \in {"stepB", "stepE"} /\ e.via # "direct", "C10:step-record-queued")]
+            /\ sync' = IF e.kind \in {"stepB", "stepE"} THEN e.kind ELSE sync
+            /\ v' = v0
             /\ UNCHANGED <<truth, nd, ords, cnt>>
+       [] e.k = "flush" ->
+            /\ v' = v0 /\ UNCHANGED <<truth, nd, ords, cnt, sync>>
        [] e.k \in {"stepB", "stepE"} ->
             /\ cnt' = Bump(cnt, e.k) /\ sync' = ""
             /\ v' = [v0 EXCEPT !.C10 = F(@, sync # e.k, "C10:step-record-not-synchronous")]
